@@ -19,7 +19,11 @@ def run_patch(patch, pid, tier="quick"):
         r = subprocess.run(["git", "-C", os.path.join(d, "repo"), "apply", os.path.abspath(patch)],
                            stdout=subprocess.PIPE, stderr=subprocess.STDOUT, text=True)
         if r.returncode != 0:
-            return 99, "patch does not apply: " + r.stdout
+            # later `fix:` commits may have moved the context lines of an older patch: fuzzy application as a fallback
+            r2 = subprocess.run(["patch", "-p1", "-F3", "-s", "-i", os.path.abspath(patch)], cwd=os.path.join(d, "repo"),
+                                stdout=subprocess.PIPE, stderr=subprocess.STDOUT, text=True)
+            if r2.returncode != 0:
+                return 99, "patch does not apply: " + r.stdout + r2.stdout
         env = dict(os.environ, VERIF_REPO=os.path.join(d, "repo"))
         p = subprocess.run([os.path.join(VERIF, "check"), pid, tier], env=env, stdout=subprocess.PIPE,
                            stderr=subprocess.STDOUT, text=True)
